@@ -579,10 +579,7 @@ func c02(p *core.Program, r *core.Report) {
 	// ---- rule 4: accessors / iterators
 	// part accessors of MultiPolygon: every function of package geom whose receiver is *MultiPolygon (helpers extracted
 	// from Polygon(i) stay covered as long as they are methods), plus the level-3 kernels of flat.go via C09.
-	onlyMP := func(o *types.Func) bool {
-		sig, _ := o.Type().(*types.Signature)
-		return sig != nil && sig.Recv() != nil && o.Pkg().Path() == mod && strings.Contains(sig.Recv().Type().String(), "MultiPolygon")
-	}
+	onlyMP := apiClosure(p, "", "MultiPolygon")
 	lastElemRule(p, r, "last-elem-guarded", 2, onlyMP)
 
 	// ---- rule 5: callers of Push propagate its error
